@@ -257,8 +257,15 @@ class Ctx:
         restarted on the cases after the culprit, which is left without a result (-> `missing`, `self.died`)"""
         todo = list(cases)
         res, tail, rc = {}, "", 0
+        culprits = 0
         for attempt in range(40):
             if not todo:
+                break
+            if culprits >= 3:         # enough evidence: the remaining cases are not run
+                self.notes.append("probe %s: stopped after %d cases that hung or ended the process; %d cases not run" % (
+                    argv[-1], culprits, len(todo)))
+                for c in todo:
+                    res.setdefault(c["id"], None)
                 break
             data = "".join(json.dumps(c) + "\n" for c in todo).encode()
             rc, out, dt = sh(argv, input=data, timeout=timeout, env=env)
@@ -275,6 +282,7 @@ class Ctx:
             if rc == 0 or not rest:
                 break
             tail = out[-2000:]
+            culprits += 1
             if rc == 4:                 # a guarded call hung; its case has been reported with class hang
                 todo = rest
                 continue
@@ -284,6 +292,7 @@ class Ctx:
         for c in cases:
             self.case_by_id[c["id"]] = c
         missing = [c["id"] for c in cases if c["id"] not in res]
+        res = {k: v for k, v in res.items() if v is not None}
         return res, missing, (rc, tail if missing else "")
 
     def model(self, items, timeout=1800):
